@@ -132,6 +132,19 @@ class VariableTerm(Term):
     def variables(self):
         return [ self.varname ]
 
+# Prolog variables become Python local variables with the same name. These
+# names mean something else to Python or to the generated code itself.
+_RESERVED_VARIABLE_NAMES = ('True', 'False', 'None', '__debug__', 'ATOM_NIL', '__builtins__')
+
+def python_variable_name(varname):
+    """returns the name of the Python variable for the Prolog variable
+    varname: a reserved name gets an extra underscore, and so does a reserved
+    name followed by underscores, to keep distinct variables distinct."""
+    for reserved in _RESERVED_VARIABLE_NAMES:
+        if varname.startswith(reserved) and varname[len(reserved):].strip('_') == '':
+            return varname + '_'
+    return varname
+
 class AnonymousVariableTerm(VariableTerm):
     def __init__(self,num):
         self.num = num
@@ -356,7 +369,7 @@ class YPPrologVisitor(prologVisitor):
             variable = AnonymousVariableTerm(self.anonymousVariableCounter)
             self.anonymousVariableCounter += 1
         else:
-            variable = VariableTerm(varname)
+            variable = VariableTerm(python_variable_name(varname))
         return variable
 
     def unquoteString(self,s):
